@@ -9,13 +9,16 @@ CONSTANTS
   Uris = {"u1"}
   Want <- WantAll
   CapOff = {}
-  TTLPos = FALSE
+  TTLPos = TRUE
   D = 0
   MaxTime = 0
   MaxChanges = 0
   MaxUpdates = 2
   MaxCalls = 2
   NPages = 1
+  ListenOwns = TRUE
+  ResubRace = TRUE
+  GenCheck = TRUE
   ModernUnsub = FALSE
   ForeignUnsub = FALSE
   Stepwise = FALSE
